@@ -639,7 +639,7 @@ namespace detail {
                                         path_generator_type::generate(context, last, i, options), 
                                         current.at(i), receiver, options);
                 }
-                else 
+                else if (index_ < 0)
                 {
                     int64_t index = slen + index_;
                     if (index >= 0 && index < slen)
@@ -670,7 +670,7 @@ namespace detail {
                                         path_generator_type::generate(context, last, i, options), 
                                         current.at(i), options, ec);
                 }
-                int64_t index = slen + index_;
+                int64_t index = index_ < 0 ? slen + index_ : index_;
                 if (index >= 0 && index < slen)
                 {
                     auto i = static_cast<std::size_t>(index);
